@@ -205,12 +205,27 @@ func runChunkedCase(c hCase, w *rig.Writer) (coq string, ok bool, fail *rig.GoFa
 				dc, ec := h.Get(req)
 				var rs []string
 				var gerr error
+				// every value handed out stays the receiver's: kept with a private copy and compared
+				// again when the whole get is over (the orchestrators hold values across backend calls)
+				type held struct{ got, saved []byte }
+				var kept []held
+				defer func() {
+					for _, k := range kept {
+						if !bytes.Equal(k.got, k.saved) && fail == nil {
+							fail = &rig.GoFailure{Kind: "counterexample", What: "a value returned by a multi-key get changed while the handler fetched the following keys (the returned slice is not the receiver's own)",
+								Input: c, Detail: fmt.Sprintf("returned %q..., now %q...", trunc(string(k.saved), 40), trunc(string(k.got), 40))}
+						}
+					}
+				}()
 				for dc != nil || ec != nil {
 					select {
 					case r, ok := <-dc:
 						if !ok {
 							dc = nil
 						} else {
+							if len(r.Data) > 0 {
+								kept = append(kept, held{r.Data, append([]byte(nil), r.Data...)})
+							}
 							rs = append(rs, gresGallina(r.Key, r.Data, r.Flags, r.Opaque, r.Quiet, r.Miss))
 							if !r.Miss {
 								stats["hit"] = true
